@@ -79,30 +79,83 @@ _ANSI_KNOWN = (ANSI_RED, ANSI_RESET, ANSI_BOLD)
 
 
 def strip_colour(t):
-    for a in _ANSI_KNOWN:
-        t = t.replace(a, '')
-    return t
-
-
-def _drop_prefix_letters(t, letters):
-    """drop one of `letters` (+ optional r/R kept) immediately before a quote when it is
-    preceded by a non-word character or the start of the text"""
+    """remove well formed SGR colour sequences  ESC [ digits-and-semicolons m  (scanner, no regex)"""
+    if '\x1b' not in t:
+        return t
     out = []
     i = 0
     n = len(t)
     while i < n:
-        ch = t[i]
-        if ch in letters:
-            prev = t[i - 1] if i > 0 else None
-            boundary = prev is None or not (prev.isalnum() or prev == '_')
-            j = i + 1
+        if t[i] == '\x1b' and i + 1 < n and t[i + 1] == '[':
+            j = i + 2
+            while j < n and (t[j].isdigit() or t[j] == ';'):
+                j += 1
+            if j < n and t[j] == 'm':
+                i = j + 1
+                continue
+        out.append(t[i])
+        i += 1
+    return ''.join(out)
+
+
+def colour_spans(t):
+    """[(start, end)] of the well formed colour sequences in t"""
+    spans = []
+    i = 0
+    n = len(t)
+    while i < n:
+        if t[i] == '\x1b' and i + 1 < n and t[i + 1] == '[':
+            j = i + 2
+            while j < n and (t[j].isdigit() or t[j] == ';'):
+                j += 1
+            if j < n and t[j] == 'm':
+                spans.append((i, j + 1))
+                i = j + 1
+                continue
+        i += 1
+    return spans
+
+
+def _is_word(c):
+    return c.isalnum() or c == '_'
+
+
+def _drop_prefix_letters(t, letters):
+    """left to right, non overlapping: drop one of `letters` standing directly before a quote
+    (an r/R may sit in between and is kept) when the letter is at the very start of the text or
+    preceded by a non-word character.  The boundary character, the kept r/R and the quote belong
+    to that occurrence and cannot serve as the boundary of the next one."""
+    out = []
+    pos = 0
+    n = len(t)
+
+    def prefix_at(k):
+        # letter at k, optional r/R, quote: returns index after the quote or None
+        if k < n and t[k] in letters:
+            j = k + 1
             if j < n and t[j] in 'rR':
                 j += 1
-            if boundary and j < n and t[j] in '\'"':
-                i += 1
+            if j < n and t[j] in '\'"':
+                return j + 1
+        return None
+
+    while pos < n:
+        c = t[pos]
+        if not _is_word(c):
+            end = prefix_at(pos + 1)
+            if end is not None:
+                out.append(c)
+                out.append(t[pos + 2:end])
+                pos = end
                 continue
-        out.append(ch)
-        i += 1
+        if pos == 0:
+            end = prefix_at(0)
+            if end is not None:
+                out.append(t[1:end])
+                pos = end
+                continue
+        out.append(c)
+        pos += 1
     return ''.join(out)
 
 
@@ -141,11 +194,16 @@ def output_matches(got, want, bits):
     if match(g, w, ell):
         return True
     if nr:
+        # one side may drop one pair of surrounding quotes; under whitespace normalisation the
+        # blanks this exposes are as insignificant as any other leading/trailing blanks
+        def inner(x):
+            x = x[1:-1]
+            return x.strip() if nw else x
         for q in '"\'':
-            if g.startswith(q) and g.endswith(q) and len(g) >= 1 and match(g[1:-1], w, ell):
+            if g.startswith(q) and g.endswith(q) and match(inner(g), w, ell):
                 return True
         for q in '"\'':
-            if w.startswith(q) and w.endswith(q) and len(w) >= 1 and match(g, w[1:-1], ell):
+            if w.startswith(q) and w.endswith(q) and match(g, inner(w), ell):
                 return True
     return False
 
@@ -155,6 +213,8 @@ def in_reference_domain(got, want):
     a whole line, no carriage returns"""
     if MARK in got or '\r' in got or '\r' in want:
         return False
+    if '\x1b' in strip_colour(got) or '\x1b' in strip_colour(want):
+        return False        # malformed escape sequences: undocumented
     if MARK in want:
         for line in want.split('\n'):
             if MARK in line and line != MARK:
